@@ -92,6 +92,9 @@ class NearestBetterClustering:
 
     def _find_root_nodes(self) -> list[Node]:
         nodes = self.tree.all_nodes()
+        if not self.distances:
+            # A single individual (e.g. after truncation) has no nearest-better distance: it is the only cluster seed.
+            return nodes
         mean_distance = np.mean(self.distances)
         correction_factor = 1 if not self.use_correction else self._get_correction_factor()
         return [
